@@ -148,11 +148,16 @@ MCSeq_perm == {<<Row3(HET, HOM0, HOM0), Row3(HOM1, HET, HOM0), Row3(HOM1, HOM1, 
                <<Row3(HET, HOM0, HOM0), Row3(HOM1, MISS, G1(1)), Row3(HOM1, HOM1, HET)>>}
 \* C12: four populations (hash-order dependence would show), two column orders, fixed asymmetric records
 Row4(w, x, y, z) == [gt |-> [s \in S4 |-> IF s = "s1" THEN w ELSE IF s = "s10" THEN x ELSE IF s = "s2" THEN y ELSE z], bad |-> FALSE]
+NoGt4 == [gt |-> Row4(HET, HOM1, HET, HOM0).gt, bad |-> FALSE, fmt |-> "nogt"]
 Lists4 == {<<E("s1", "A"), E("s10", "B"), E("s2", "C"), E("s11", "D")>>, <<E("s11", "D"), E("s10", "B"), E("s1", "A"), E("s2", "C")>>,
            <<E("s1", "A"), E("s10", "A"), E("s2", "B"), E("s11", U)>>, AllMarker}
 Orders4 == {<<"s1", "s10", "s2", "s11">>, <<"s2", "s1", "s11", "s10">>}
 MCSeq_c12 == {<<Row4(HET, HOM0, HOM0, HOM1), Row4(HOM1, HET, HOM0, HOM0), Row4(HOM1, HOM1, HET, MISS),
                Row4(HOM0, HOM0, MULT, HET), Row4(HET, HET, HET, HET)>>,
               <<Row4(HET, HOM1, HOM0, HOM0), Row4(HOM0, HOM0, HOM0, G1(1))>>,
+              \* the FIRST record has a FORMAT column without GT, the later ones have genotypes (and the other way round): what one
+              \* record carries says nothing about the next, in every container alike
+              <<NoGt4, Row4(HET, HOM0, HOM0, HOM1), Row4(HOM1, HET, HOM0, HOM0)>>,
+              <<Row4(HOM1, HET, HOM0, HOM0), NoGt4, Row4(HET, HOM0, HOM0, HOM1)>>,
               <<>>}
 =============================================================================
